@@ -36,6 +36,15 @@ def gen_fst(rng, max_states=4, max_trans=6, allow_int=True, pool=None):
     return case
 
 
+def intify(case):
+    """input and output symbols as small ints (0 / 1 on both tapes, the values int-named states have too)"""
+    m = {"x": 0, "y": 1, "u": 0, "v": 1}
+    case["inputs"] = [m.get(a, a) for a in case["inputs"]]
+    case["trans"] = [[p, m.get(a, a), q, [m.get(o, o) for o in out]] for p, a, q, out in case["trans"]]
+    case["iomode"] = "int"
+    return case
+
+
 def make_eps_cycles_silent(case):
     """the property's domain: epsilon cycles write nothing -- erase the outputs of offending moves"""
     while True:
